@@ -41,6 +41,15 @@ CLAIMED = {
         "Equality of infosets and value conversions inside getters are not decided.",
         "Trusted: import-order replay of module-level statements; Python attribute lookup along the MRO; two open known findings (TabStopStyle shadowed, Style.data_style unused).",
         "DESIGN.md §4 C12"),
+    "C13": (
+        "symbolic evaluation of the insert_style dispatch over the finite family x mode domain and of the lookup contexts; row-by-row table comparison; schema 'holds' table for existence-check scope; CFG dominance for delete-before-append; cross-document taint (clone-before-attach)",
+        "Partial, structural. For each of 27 families (plus the fill-image pseudo style) and each mode, the container insert_style chooses is "
+        "computed from the code and shown to be one the document lookup for that family searches; each helper's existence check is shown not to "
+        "exceed its destination by a container that could hold such a style; delete-before-append dominates the append in insert_style and "
+        "merge_styles_from; nodes of another document are cloned before being attached; automatic names are max+1 after a scan of both parts. "
+        "Numeric name collisions, 'other document wins' ordering and reload are not decided.",
+        "Trusted: the frozen ODF 1.2 table of which container can hold which style tag; lxml re-parenting semantics.",
+        "DESIGN.md §4 C13"),
     "C14": (
         "taint analysis: string-builder flattening, quoted/predicate field detection, local def-use closure, interprocedural sink-parameter and query-return summaries (fixpoint)",
         "Decides the mechanism of the property for every lookup: no run-time string reaches an XPath sink between quote characters or "
